@@ -21,6 +21,8 @@ LEVEL = 'proof'
 ENVDUMP = '''\
 import json, os, sys
 import helper_sibling
+from os import getcwd as c_level_function          # callables implemented in C, imported by name
+from math import sqrt as another_c_level_function
 print("ENV " + json.dumps({"argv": sys.argv, "name": __name__, "file": os.path.abspath(__file__), "path0": os.path.abspath(sys.path[0]),
                            "cwd": os.getcwd(), "sibling": os.path.abspath(helper_sibling.__file__)}))
 with open(os.path.join(os.environ["C07_LOG_DIR"], "order.log"), "a") as fh:
@@ -64,7 +66,8 @@ TARGETS = [
 ]
 OPTSETS = [[], ['-l'], ['-b'], ['-l', '-b'], ['-l', '-v'], ['-l', '-z', '-u', '1e-3'], ['-l', '-i', '5'], ['-b', '-i', '5'], ['-i', '3'],
            ['-l', '-o', 'custom.out'], ['-l', '-s', 'setup_file.py'], ['-s', 'setup_file.py'], ['-l', '-p', 'helper_sibling'],
-           ['-l', '-p', 'helper_sibling', '--prof-imports'], ['-l', '-r'], ['-l', '-s', 'sub/setup_in_sub.py', '-i', '2']]
+           ['-l', '-p', 'helper_sibling', '--prof-imports'], ['-l', '-r'], ['-l', '-s', 'sub/setup_in_sub.py', '-i', '2'],
+           ['-l', '-p', '{SELF}', '--prof-imports'], ['-l', '-p', '{SELF}']]          # the program itself selected for auto-profiling
 PROG_ARGS = [[], ['a', '-l', '--view'], ['x', '--', '-m', 'y']]
 
 
@@ -87,6 +90,10 @@ def run_one(build, target, opts, pargs):
             os.remove(os.path.join(logdir, 'order.log'))
         t0 = time.time()
         kp_pargs = (shield + pargs) if shield else pargs
+        self_sel = kp_tail[-1].replace('{D}', d)
+        if name == 'on-PATH':
+            self_sel = os.path.join(d, 'bin', 'onpath.py')
+        opts = [o.replace('{SELF}', self_sel) for o in opts]
         b = subprocess.run([PY, '-m', 'kernprof'] + opts + sub(kp_tail) + kp_pargs, cwd=d, env=e, capture_output=True, text=True, timeout=120)
         t_kp = time.time() - t0
         order = open(os.path.join(logdir, 'order.log')).read().splitlines() if os.path.exists(os.path.join(logdir, 'order.log')) else []
@@ -255,6 +262,7 @@ def run(ctx):
     if ctx.quick:
         base = [(t, o, PROG_ARGS[(i + j) % 3]) for i, t in enumerate(TARGETS) for j, o in enumerate(OPTSETS) if (i + j) % 3 == 0 or o in (['-l', '-i', '5'], ['-l', '-s', 'setup_file.py'])]
         base += [(TARGETS[-1], o, []) for o in (['-l', '-i', '5'], ['-b', '-i', '5'], ['-i', '3'])]
+        base += [(t, ['-l', '-p', '{SELF}', '--prof-imports'], []) for t in (TARGETS[0], TARGETS[2], TARGETS[4])]
         combos = base + ctx.rng.fork('c').sample(combos, 12)
     if ctx.broken:
         combos = [(t, o, p) for t in TARGETS for o in OPTSETS for p in PROG_ARGS[:2]]
@@ -263,8 +271,14 @@ def run(ctx):
         res = list(ex.map(lambda c: run_one(build, *c), combos))
     nontrivial = set()
     dist = {}
+    relat = 0
     for (t, o, p), r in zip(combos, res):
         viol, known = compare(t, o, p, r)
+        if viol and all('exit_latency_s' in v for v in viol):
+            # wall-clock latency depends on the machine's load: measured again, alone, before it is believed
+            relat += 1
+            r = run_one(build, t, o, p)
+            viol, known = compare(t, o, p, r)
         for v in viol[:2]:
             ctx.fail('the program does not see / produce under kernprof what it does under python', {'finding_class': None, 'target': t[0], 'kernprof_options': o,
                                                                                                  'program_args': p, 'difference': v})
@@ -277,7 +291,7 @@ def run(ctx):
         'evaluations': len(combos), 'distinct_nontrivial': len(nontrivial),
         'rule': '7 placements (relative, sub-directory, absolute, on PATH, -m module, -m package, -m package.module) + a program dying from an uncaught exception, x 16 option sets '
                 '(-l -b -v -z -u -i -o -s -p --prof-imports -r) x 3 program-argument lists (sampled in quick); each run twice (python, kernprof) in fresh processes',
-        'traces_validated_against_impl': len(combos) + tstats['schedules'] - tstats['correspondence_disagreements'], 'target_distribution': dist,
+        'traces_validated_against_impl': len(combos) + tstats['schedules'] - tstats['correspondence_disagreements'], 'target_distribution': dist, 'latency_remeasured': relat,
         'timer_schedules': tstats})
     ctx.coverage['samples'].append({'target': combos[-1][0][0], 'options': combos[-1][1], 'program_args': combos[-1][2],
                                     'kernprof_stdout_tail': res[-1]['kp']['out'][-300:], 'latency': [round(res[-1]['py']['t'], 2), round(res[-1]['kp']['t'], 2)]})
